@@ -590,7 +590,7 @@ pub const HEADER_VALUES: [&[u8]; 30] = [
 /// Attach X-Retry-After headers (from the grammar above, duplicates included) to scripted replies.
 pub fn decorate_retry_after(script: &mut Script, rng: &mut Rng, num: u64, den: u64) -> String {
     let mut label = String::new();
-    let mut deco = |r: &mut RespSpec, rng: &mut Rng, label: &mut String| {
+    let deco = |r: &mut RespSpec, rng: &mut Rng, label: &mut String| {
         if let RespSpec::Reply(rep) = r {
             if rng.chance(num, den) {
                 let i = rng.usize(HEADER_VALUES.len());
